@@ -615,7 +615,9 @@ impl<C: Cfg> World<C> {
             if cap <= len {
                 continue;
             }
-            let n = ((cap - len).min(4096) * size).min(32 << 10);
+            // everything behind len (a partially poisoned spare region would leave stale copies of
+            // moved-out elements for the backend's release probe to trip over)
+            let n = (cap - len).saturating_mul(size).min(alloc::VIRT_LIMIT);
             let base = v.downcast_mut::<C::T>().unwrap().as_mut_ptr() as *mut u8;
             // storage served virtually (huge request): only the first VIRT_SIZE bytes exist
             if (len * size).saturating_add(n) > alloc::VIRT_SIZE && cap.saturating_mul(size) > alloc::VIRT_LIMIT {
